@@ -78,6 +78,7 @@ inductive Ctx where | none | search | alive | bye
 
 structure St where
   cfg : Option (Cfg × Str) := none
+  alwaysRoot : Bool := false
   cls : Array Node := #[]
   dev : Array Node := #[]
   searches : Array RawSearch := #[]
@@ -103,10 +104,11 @@ def setHeard (a : Array RawMsg) (h : Heard) : Array RawMsg :=
 
 def step (st : St) (toks : List String) : St :=
   match toks with
-  | ["cfg", b, u, srv, date, boot, conf, host, target] =>
-    { st with cfg := some ({ baseUri := str b, deviceUrl := str u, server := str srv,
-                             cacheControl := Gen.C13Server.cacheControl, date := str date,
-                             bootId := str boot, configId := str conf, host := str host }, str target) }
+  | ["cfg", b, u, srv, date, boot, conf, host, target, ar] =>
+    let c : Cfg := { baseUri := str b, deviceUrl := str u, server := str srv,
+                     cacheControl := Gen.C13Server.cacheControl, date := str date,
+                     bootId := str boot, configId := str conf, host := str host }
+    { st with alwaysRoot := (ar == "1"), cfg := some (c, str target) }
   | ["cls", d, u, t, s] => { st with cls := st.cls.push (parseNode d u t s) }
   | ["dev", d, u, t, s] => { st with dev := st.dev.push (parseNode d u t s) }
   | ["search", _id, time, reqr, line, man, stt, mx, sel] =>
@@ -157,7 +159,7 @@ def cmpMsgs (what : String) (impl : List RawMsg) (model : List (ObsMsg × Str)) 
 def finish (st : St) : Bool × Bool × List String :=
   match st.cfg, treeOf st.cls.toList, treeOf st.dev.toList with
   | some (cfg, target), some cls, some dev =>
-    let k := consts
+    let k : Consts := { consts with alwaysRoot := st.alwaysRoot }
     -- correspondence
     let mtree := build cls
     let n1 := if mtree == dev then [] else ["tree: instantiated tree differs from build(classes)"]
@@ -196,7 +198,7 @@ def finish (st : St) : Bool × Bool × List String :=
     let corrNotes := st.bad ++ n1 ++ n2 ++ n3 ++ n4 ++ n5 ++ n6
     -- judge, on the implementation's observations only
     let icase : CaseObs :=
-      { tree := dev, location := cfg.location, target := target,
+      { tree := dev, alwaysRoot := k.alwaysRoot, location := cfg.location, target := target,
         searches := st.searches.toList.map fun rs =>
           { time := rs.inp.time, requester := rs.inp.requester, req := rs.inp.req, raised := rs.raised.isSome,
             sends := rs.sends.toList.map toObs },
@@ -208,7 +210,7 @@ def finish (st : St) : Bool × Bool × List String :=
     let jn1 := (icase.searches.zipIdx.filterMap fun (s, idx) =>
       if okSearch icase s then none
       else
-        let (exp, _) := expected icase.tree (s.req.st.getD [])
+        let (exp, _) := expected icase.tree icase.alwaysRoot (s.req.st.getD [])
         some s!"judge search{idx} st={show' (s.req.st.getD [])} mx={show' (s.req.mx.getD "!".toList)} raised={s.raised} expected=[{", ".intercalate (exp.map fun e => show' e.st ++ "|" ++ show' e.usn)}] got=[{", ".intercalate (s.sends.map fun m => s!"{show' m.st}|{show' m.usn}@{m.time - s.time}ms>{show' m.dest} heard={showHeard m.heard}")}]").take 2
     let jn2 := if okAlives icase then [] else [s!"judge alives: [{", ".intercalate (icase.alives.map fun m => s!"{show' m.st}|{show' m.usn}@{m.time} heard={showHeard m.heard}")}]"]
     let jn3 := if okByebyes icase then [] else [s!"judge byebyes: [{", ".intercalate (icase.byebyes.map fun m => s!"{show' m.st}|{show' m.usn}@{m.time} heard={showHeard m.heard}")}]"]
